@@ -1,6 +1,9 @@
 #!/bin/bash
 # run_seeds.sh [ids...] : apply each stored seeded mutation to /repo, run the check of its property (+C12/C14 when relevant), undo; write seeded/detection.json
 cd /verif
+# work on a scratch copy of /repo HEAD so that this can run while /repo is in use
+SCR=/tmp/verif-seedrun; rm -rf $SCR; mkdir -p $SCR; git -C /repo worktree prune; git -C /repo worktree add --detach $SCR/repo HEAD -q || exit 1
+export VERIF_REPO=$SCR/repo
 export VERIF_EVIDENCE_DIR=/tmp/verif-seed-evidence; mkdir -p $VERIF_EVIDENCE_DIR
 python3 - "$@" <<'PY'
 import json, os, subprocess, sys, re
@@ -12,13 +15,13 @@ for sid in ids:
     if not os.path.exists(os.path.join(d, 'patch.diff')):
         continue
     prop = sid.split('_')[0]
-    if subprocess.run(['git', '-C', '/repo', 'diff', '--quiet']).returncode != 0:
+    if subprocess.run(['git', '-C', os.environ['VERIF_REPO'], 'diff', '--quiet']).returncode != 0:
         print('/repo dirty'); sys.exit(1)
-    r = subprocess.run(['git', '-C', '/repo', 'apply', '--check', os.path.join(d, 'patch.diff')], capture_output=True, text=True)
+    r = subprocess.run(['git', '-C', os.environ['VERIF_REPO'], 'apply', '--check', os.path.join(d, 'patch.diff')], capture_output=True, text=True)
     if r.returncode != 0:
         det[sid] = {'verdict': 'patch no longer applies to /repo HEAD (overlaps a fix: commit)', 'checks': {}}
         print(sid, det[sid]['verdict']); continue
-    subprocess.run(['git', '-C', '/repo', 'apply', os.path.join(d, 'patch.diff')], check=True)
+    subprocess.run(['git', '-C', os.environ['VERIF_REPO'], 'apply', os.path.join(d, 'patch.diff')], check=True)
     try:
         res = {}
         for p in [prop]:
@@ -29,6 +32,7 @@ for sid in ids:
         det[sid] = {'verdict': verdict, 'checks': res}
         print(sid, verdict)
     finally:
-        subprocess.run(['git', '-C', '/repo', 'checkout', '--', '.'], check=True)
+        subprocess.run(['git', '-C', os.environ['VERIF_REPO'], 'checkout', '--', '.'], check=True)
     json.dump(det, open(detp, 'w'), indent=1)
 PY
+git -C /repo worktree remove --force $SCR/repo; rm -rf $SCR
